@@ -38,6 +38,7 @@ type respOp struct {
 	Responses    []respDef
 	HasParams    bool
 	Body         string // "" | json | raw
+	BodySchema   string // component schema of a JSON request body
 }
 
 type respSpec struct {
@@ -60,6 +61,8 @@ func genRespSpec(rng *PRNG, name string) respSpec {
 		"Tagged": map[string]any{"allOf": []any{map[string]any{"$ref": "#/components/schemas/Pet"},
 			map[string]any{"type": "object", "properties": map[string]any{"owner": map[string]any{"type": "string"}}, "additionalProperties": map[string]any{"type": "string"}}}},
 	}
+	// a map whose values may be null: the entries are written from map values, which are not addressable
+	schemas["Counts"] = map[string]any{"type": "object", "required": []any{"name"}, "properties": map[string]any{"name": map[string]any{"type": "string"}}, "additionalProperties": map[string]any{"type": "integer", "nullable": true}}
 	hdrTypes := []map[string]any{{"type": "string"}, {"type": "integer"}, {"type": "boolean"}, {"type": "integer", "format": "int64"}, {"type": "number"}, {"type": "string", "format": "date-time"},
 		{"type": "array", "items": map[string]any{"type": "integer"}}, {"type": "array", "items": map[string]any{"type": "string"}}}
 	hdrNames := []string{"X-Next", "x-total", "X-Rate-Limit", "ETag", "x-flag", "Retry-After"}
@@ -77,6 +80,10 @@ func genRespSpec(rng *PRNG, name string) respSpec {
 			if rng.Bool() {
 				h["required"] = true
 			}
+			if rng.Chance(1, 5) {
+				// a deprecated header is still a declared header
+				h["deprecated"] = true
+			}
 			if sch, _ := h["schema"].(map[string]any); rng.Chance(1, 3) && sch["type"] != "array" {
 				// a shared header (goag refuses array-typed component headers with an error): the
 				// response's own key names it on the wire, not the component's
@@ -92,9 +99,11 @@ func genRespSpec(rng *PRNG, name string) respSpec {
 		return hs, names
 	}
 	mkBody := func() (map[string]any, string, string) {
-		switch rng.Intn(6) {
+		switch rng.Intn(7) {
 		case 0:
 			return nil, "", "none"
+		case 6:
+			return map[string]any{"application/json": map[string]any{"schema": map[string]any{"$ref": "#/components/schemas/Counts"}}}, "application/json", "json"
 		case 1:
 			// the documented media type is what has to be sent, parameters and letter case included
 			mt := Pick(rng, []string{"text/plain", "text/plain; charset=utf-8", "text/CSV; header=present", "application/vnd.acme.v2+xml"})
@@ -202,15 +211,17 @@ func genRespSpec(rng *PRNG, name string) respSpec {
 		if len(params) > 0 {
 			op["parameters"] = params
 		}
+		bodySchema := ""
 		if method != "get" && method != "delete" && rng.Chance(2, 3) {
 			if rng.Chance(1, 4) {
 				op["requestBody"] = map[string]any{"content": map[string]any{"application/octet-stream": map[string]any{"schema": map[string]any{"type": "string", "format": "binary"}}}}
 			} else {
-				op["requestBody"] = map[string]any{"content": map[string]any{"application/json": map[string]any{"schema": map[string]any{"$ref": "#/components/schemas/" + Pick(rng, []string{"Pet", "Error", "Pets", "Tagged"})}}}}
+				bodySchema = Pick(rng, []string{"Pet", "Error", "Pets", "Tagged", "Counts"})
+				op["requestBody"] = map[string]any{"content": map[string]any{"application/json": map[string]any{"schema": map[string]any{"$ref": "#/components/schemas/" + bodySchema}}}}
 			}
 		}
 		responses := map[string]any{}
-		ro := respOp{Method: strings.ToUpper(method), Path: tpl, HasParams: len(params) > 0}
+		ro := respOp{Method: strings.ToUpper(method), Path: tpl, HasParams: len(params) > 0, BodySchema: bodySchema}
 		if rb, ok := op["requestBody"].(map[string]any); ok {
 			ro.Body = "raw"
 			if _, isJSON := rb["content"].(map[string]any)["application/json"]; isJSON {
@@ -257,6 +268,13 @@ func genRespSpec(rng *PRNG, name string) respSpec {
 		if pi == nil {
 			pi = map[string]any{}
 			paths[tpl] = pi
+			if rng.Chance(1, 3) {
+				// parameters shared by the operations of the path; an operation that declares one of
+				// them again (same name and location) replaces it for itself
+				pi["parameters"] = []any{map[string]any{"in": "query", "name": "limit", "schema": map[string]any{"type": "string"}},
+					map[string]any{"in": "header", "name": "x-trace", "schema": map[string]any{"type": "string"}},
+					map[string]any{"in": "query", "name": "flag", "required": true, "schema": map[string]any{"type": "string"}}}
+			}
 		}
 		pi[method] = op
 		rs.Ops = append(rs.Ops, ro)
@@ -322,6 +340,51 @@ func genRespSpec(rng *PRNG, name string) respSpec {
 	}
 	bs, _ := json.Marshal(doc)
 	rs.Gen = GenSpec{Name: name, Spec: bs, Ext: "json", Client: true, DoNotEdit: true}
+	if !rs.MustReject && rng.Chance(1, 5) {
+		// a later revision of the spec, generated over the package of the earlier one: everything is
+		// written in place now and there are no components left. What the earlier revision shared must
+		// not survive in the package (its response types would still satisfy the response interfaces).
+		prior := rs.Gen
+		prior.Name = ""
+		prior.DoNotEdit = rng.Bool()
+		rs.Gen.Prior = &prior
+		var d map[string]any
+		json.Unmarshal(inlinedSpec(bs, false), &d)
+		delete(d, "components")
+		bare := rng.Bool()
+		if bare {
+			// ... and nothing is left that would need a components file at all: the same operations and
+			// statuses, every response without headers and body, no JSON request bodies
+			for _, pi := range d["paths"].(map[string]any) {
+				for m, o := range pi.(map[string]any) {
+					op, ok := o.(map[string]any)
+					if !ok || m == "parameters" {
+						continue
+					}
+					if rb, ok := op["requestBody"].(map[string]any); ok {
+						if _, isJSON := rb["content"].(map[string]any)["application/json"]; isJSON {
+							delete(op, "requestBody")
+						}
+					}
+					for st := range op["responses"].(map[string]any) {
+						op["responses"].(map[string]any)[st] = map[string]any{"description": "d"}
+					}
+				}
+			}
+		}
+		rs.Gen.Spec, _ = json.Marshal(d)
+		for i := range rs.Ops {
+			if bare && rs.Ops[i].Body == "json" {
+				rs.Ops[i].Body, rs.Ops[i].BodySchema = "", ""
+			}
+			for j := range rs.Ops[i].Responses {
+				rs.Ops[i].Responses[j].Ref = ""
+				if bare {
+					rs.Ops[i].Responses[j] = respDef{Status: rs.Ops[i].Responses[j].Status, Body: "none"}
+				}
+			}
+		}
+	}
 	return rs
 }
 
@@ -414,10 +477,17 @@ func facetResp(args []string) error {
 	cf, _ := os.Create(filepath.Join(*out, "cases.tsv"))
 	cw := bufio.NewWriter(cf)
 	var cases []rt.Case
+	type wireRef struct{ spec, op int }
+	wireOf := map[string]wireRef{}
 	stats := map[string]int{}
 	for i, rs := range specs {
 		r := results[i]
-		fmt.Fprintf(gf, "%s\t%s\t%s\t%s\t%s\n", r.Name, r.Outcome, hexs(firstLine(r.Detail)), hexs(brokenOrFmt(r)), hexs(string(rs.Gen.Spec)))
+		prior := ""
+		if rs.Gen.Prior != nil {
+			pb, _ := json.Marshal(map[string]any{"spec": string(rs.Gen.Prior.Spec), "donotedit": rs.Gen.Prior.DoNotEdit, "client": rs.Gen.Prior.Client})
+			prior = hexs(string(pb))
+		}
+		fmt.Fprintf(gf, "%s\t%s\t%s\t%s\t%s\t%s\n", r.Name, r.Outcome, hexs(firstLine(r.Detail)), hexs(brokenOrFmt(r)), hexs(string(rs.Gen.Spec)), prior)
 		// the model must agree with the generator on whether the spec is accepted at all
 		fmt.Fprintf(cw, "respspec\t%s\t%s\n", r.Name, r.SpecPath)
 		if rs.MustReject {
@@ -443,6 +513,7 @@ func facetResp(args []string) error {
 			for j := 0; j < ncalls; j++ {
 				a, _ := json.Marshal(map[string]any{"method": op.Method, "path": op.Path, "seed": crng.Next() % 100000000, "resp": j, "status": []int{299, 418, 500, 302, 202}[j%5], "net": j%6 == 5})
 				cases = append(cases, rt.Case{Op: "clientcall", Pkg: r.Name, ID: fmt.Sprintf("%s#c%d.%d", r.Name, k, j), Args: a})
+				wireOf[fmt.Sprintf("%s#c%d.%d", r.Name, k, j)] = wireRef{i, k}
 			}
 			if op.Body != "" {
 				// raw requests with a body straight into ServeHTTP (C14): valid / invalid / empty / huge
@@ -474,6 +545,34 @@ func facetResp(args []string) error {
 	cw.Flush()
 	cf.Close()
 	obs, rerr := runBatch(bin, cases)
+	// the recorded wire requests under an OpenAPI request validator that is not goag's (C09)
+	vf, _ := os.Create(filepath.Join(*out, "valid.tsv"))
+	vw := bufio.NewWriterSize(vf, 1<<20)
+	validators := map[int]*wireValidator{}
+	for _, c := range cases {
+		wi, ok := wireOf[c.ID]
+		if !ok {
+			continue
+		}
+		o := obs[c.ID]
+		a := strings.Index(o, " wire=")
+		b := strings.Index(o, " respsent=")
+		if a < 0 || b < a {
+			continue
+		}
+		v := validators[wi.spec]
+		if v == nil {
+			v = newWireValidator(specs[wi.spec].Gen.Spec)
+			validators[wi.spec] = v
+		}
+		op := specs[wi.spec].Ops[wi.op]
+		// Tagged: an allOf member with its own additionalProperties schema; goag reads the members as
+		// one merged object, JSON Schema judges every member against the whole object (no value
+		// satisfies both readings), so the body is left out there
+		fmt.Fprintf(vw, "%s\t%s\n", c.ID, v.validate(specs[wi.spec].Base, op.Method, op.Path, o[a+6:b], op.BodySchema == "Tagged"))
+	}
+	vw.Flush()
+	vf.Close()
 	of, _ := os.Create(filepath.Join(*out, "impl.tsv"))
 	ow := bufio.NewWriterSize(of, 1<<20)
 	for _, c := range cases {
